@@ -113,8 +113,8 @@ template <> struct Sig<int, const std::string &> { static constexpr const char *
 template <> struct Sig<Payload> { static constexpr const char *name = "sig_class_by_value"; template <class R> static std::pair<size_t, std::string> notify(R &r, const RoutingKey &k, int s) { return {r.template notify<Payload>(k, Payload(s)), render(Payload(s))}; } };
 
 // ---------------------------------------------------------------- the runner
-enum K { SUBSCRIBE = 0, SUBSCRIBE_SELFVIEW, UNSUBSCRIBE, SELF_INVALIDATE_NEXT, NOTIFY, SHRINK, SHRINK_ALL, EXISTS, DEPTH, NOTIFY_CONCRETE, NK };
-inline const char *kname(int k) { static const char *n[] = {"subscribe", "subscribe_selfview", "unsubscribe", "self_invalidate_next", "notify", "shrink", "shrink_all", "exists", "depth", "notify_concrete"}; return n[k]; }
+enum K { SUBSCRIBE = 0, SUBSCRIBE_SELFVIEW, UNSUBSCRIBE, SELF_INVALIDATE_NEXT, NOTIFY, SHRINK, SHRINK_ALL, EXISTS, DEPTH, NOTIFY_CONCRETE, SHRINK_DERIVED, NK };
+inline const char *kname(int k) { static const char *n[] = {"subscribe", "subscribe_selfview", "unsubscribe", "self_invalidate_next", "notify", "shrink", "shrink_all", "exists", "depth", "notify_concrete", "shrink_derived"}; return n[k]; }
 
 struct ObsRec { int id; Key key; bool subscribed = true, valid = true, selfview = false, pending_self = false; };
 struct Shared { std::vector<std::pair<int, std::string>> log; std::vector<bool> self_inval; };
@@ -336,6 +336,19 @@ template <class Router, class... Args> struct Runner {
                 note("%s: %s", when, show(p).c_str()); checked_notify(p, when); break;
             }
             case SHRINK: { Pattern p = decode_pattern(o.a, o.b, o.c, nameLimit, MAXDEPTH + 1); note("%s: %s", when, show(p).c_str()); do_shrink(p, when, false); label("shrink"); break; }
+            case SHRINK_DERIVED: {
+                // a shrink pattern derived from the key of an observer that is no longer subscribed (a dead key is what shrink is
+                // about), per level the key's own name or a broad regex, optionally one level shorter or longer
+                if (obs.empty()) { done = false; break; }
+                size_t start = (unsigned)o.a % obs.size(), pick = start;
+                for (size_t i = 0; i < obs.size(); ++i) { size_t j = (start + i) % obs.size(); if (!obs[j].subscribed) { pick = j; break; } }
+                Pattern p; unsigned ub = (unsigned)o.b;
+                static const int broad[8] = {0, 0, 0, 1, 3, 4, 2, 6};
+                for (int n : obs[pick].key) { bool rx = ((unsigned)o.c >> p.size()) & 1; p.push_back(rx ? Level{true, broad[ub % 8]} : Level{false, n}); ub /= 8; }
+                switch (((unsigned)o.c >> 4) & 3) { case 1: if (!p.empty()) p.pop_back(); break; case 2: p.push_back(Level{true, 0}); break; default: break; }
+                note("%s: %s", when, show(p).c_str()); do_shrink(p, when, false); label("shrink"); label("shrink_derived_from_dead_key");
+                break;
+            }
             case SHRINK_ALL: { Pattern p; size_t d = (unsigned)o.a % (MAXDEPTH + 2); for (size_t i = 0; i < d; ++i) p.push_back(Level{true, 0}); note("%s: %s (built with all())", when, show(p).c_str()); do_shrink(p, when, true); label("shrink"); break; }
             case EXISTS: { Pattern p = decode_pattern(o.a, o.b, o.c, nameLimit, MAXDEPTH + 1); check_exists(p, when); label("exists_probe"); break; }
             case DEPTH: break;   // check_structure() reads depth() after every op
